@@ -87,3 +87,10 @@ Print Assumptions c16_run_without_data_noop.
 From SymfcG Require Import ShapesApi.
 Theorem c16_recorded_sources2_in_force : ShapesApi_as_recorded = true.
 Proof. repeat split; reflexivity. Qed.
+
+(** What the modules on this property's path consist of besides the function bodies is the recorded one: every signature with its
+    defaults and keyword-only arguments, decorators, class bases, method lists and module-level statements (imports, constants) --
+    regenerated on every run. *)
+From SymfcG Require Import SkelApi.
+Theorem c16_module_skeletons_in_force : SkelApi_as_recorded = true.
+Proof. repeat split; reflexivity. Qed.
